@@ -379,6 +379,59 @@ def autoResolve (H : Bytes → Str) (src : Src) (st : DState) : Res DState :=
       | .panic m => .panic m)
     | e => e) (.ok st)
 
+/-! ### `stage` (export) and `replay_stage` -/
+
+/-- `Melda::stage`: the staged object bodies (`"o"`) and the staged revisions as change records (`"c"`,
+    tree by tree; the order of the records of one tree is a hash-map order in the code) -/
+def stageExport (st : DState) : Option JVal :=
+  let o : List (Str × JVal) := if st.stage.isEmpty then [] else
+    [(['o'], .obj (objOfList (st.stage.map (fun p => (p.1, JVal.obj p.2)))))]
+  let cs := PState.stagedChanges st.p.docs
+  let c : List (Str × JVal) := if !st.p.hasStaging then [] else
+    [(['c'], .arr (cs.map (fun c => match c.parent with
+      | some p => .arr [.str c.uuid, .str p.render, .str c.rev.digest]
+      | none => .arr [.str c.uuid, .str c.rev.digest])))]
+  if o.isEmpty && c.isEmpty then none else some (.obj (objOfList (o ++ c)))
+
+/-- `Melda::replay_stage` -/
+def replayStage (H : Bytes → Str) (st : DState) (s : JVal) : Res DState :=
+  match s with
+  | .obj so =>
+    let st1 : Res DState := match objGet ['o'] so with
+      | none => .ok st
+      | some (.obj bodies) =>
+        .ok { st with stage := bodies.foldl (fun (stage : List (Str × JObj)) p =>
+          if st.p.objects.contains p.1 then stage
+          else match p.2 with
+            | .obj b => (stage.filter (fun q => q.1 ≠ p.1)) ++ [(p.1, b)]
+            | _ => stage) st.stage }
+      | some _ => .err "expecting_stage_object"
+    match st1 with
+    | .ok st1 =>
+      (match objGet ['c'] so with
+       | some (.arr recs) =>
+         recs.foldl (fun (acc : Res DState) rec => match acc with
+           | .ok d =>
+             (match rec with
+              | .arr [.str u, .str dg] =>
+                let r := Rev.mk1 dg
+                let t := (d.treeOf u).getD RevTree.empty
+                .ok (d.withTree u (t.add r none true).1)
+              | .arr [.str u, .str prev, .str dg] =>
+                (match Rev.parse prev with
+                 | none => .err "invalid_revision_string"
+                 | some p =>
+                   let r := Rev.new H (p.index + 1) dg (some p)
+                   let t := (d.treeOf u).getD RevTree.empty
+                   .ok (d.withTree u (t.add r (some p) true).1))
+              | .arr [_, _] => .err "expecting_uuid_string"
+              | .arr [_, _, _] => .err "expecting_uuid_string"
+              | _ => .ok d)
+           | e => e) (.ok st1)
+       | _ => .ok st1)
+    | e => e
+  | _ => .err "expecting_stage_object"
+
 /-! ### `commit`: what is written, in which order
 
   The code iterates two hash maps (staged objects, staged revisions per tree), so the order of the
